@@ -1801,7 +1801,15 @@ impl<'a> Parser<'a> {
         let previous = s.previous.clone();
         let name = s.identifier_constant(&previous);
 
-        let instance_local_name = s.compiler().locals[0].name.clone();
+        // The receiver is slot zero of the innermost enclosing method ('self', or 'Self' in a static
+        // method); a function or lambda nested in that method captures it like any other variable.
+        let instance_local_name = s
+            .compilers
+            .iter()
+            .rev()
+            .map(|c| c.locals[0].name.clone())
+            .find(|name| !name.is_empty())
+            .unwrap_or_default();
         s.named_variable(Token::from_string(instance_local_name.as_str()), false);
         if s.match_token(TokenKind::LeftParen) {
             let arg_count = s.argument_list(
